@@ -445,6 +445,14 @@ Section ZDirLiveInst.
              (delta psi_grad_full grad_psi P x_in Lf) Hd (fun i _ G Hs => He i G Hs) Phi0 N HN Hmax (Rle_refl _) fuel Hf).
   Qed.
 
+  Theorem zerofprD_returns_converged :
+    p_crit P = ProjGradNorm \/ p_crit P = ProjGradNorm2 \/ p_crit P = FPRNorm \/ p_crit P = FPRNorm2 ->
+    forall N fuel : nat, Phi0 - ψinf < INR N * dec psi_grad_full grad_psi P x_in Lf -> (N <= p_max_iter P)%nat -> (N < fuel)%nat ->
+    exists oD, runD_ fuel = ZDoneD D oD /\ out_status (zo_out D oD) = StConverged /\ (out_iterations (zo_out D oD) < N)%nat.
+  Proof.
+    intros Hcrit N fuel HN Hmax Hf. destruct (zerofprD_live_4 Hcrit N fuel HN Hmax Hf) as (oD & E & [A B _ _]). exists oD. repeat split; assumption.
+  Qed.
+
   Variable Lg : R.
   Hypothesis Hlip : forall u d, length u = n -> length d = n ->
     vsqnorm (vsub (g u) (g (vadd u d))) <= Lg * Lg * vsqnorm d.
@@ -460,5 +468,12 @@ Section ZDirLiveInst.
     exact (zerofprD_live_g psi_grad_full psi_yhat grad_L grad_psi lb ub D ops P from_prox x_in y_in Σ errz_in ls_fuel d0 ψ g n Lf ψinf
              Hpsi Hco Hglen Hqub Hinf Hlb Hub Hne Hxin HLg HL0 HLmax Hqt Hlt Hbeta Hforce nL nT HnL Hmin Hfuel I0 Iv Hwf HI0
              (delta_kkt psi_grad_full grad_psi P x_in Lf Lg) Hd He Phi0 N HN Hmax (Rle_refl _) fuel Hf).
+  Qed.
+
+  Theorem zerofprD_returns_converged_kkt : p_crit P = ApproxKKT ->
+    forall N fuel : nat, Phi0 - ψinf < INR N * dec_kkt psi_grad_full grad_psi P x_in Lf Lg -> (N <= p_max_iter P)%nat -> (N < fuel)%nat ->
+    exists oD, runD_ fuel = ZDoneD D oD /\ out_status (zo_out D oD) = StConverged /\ (out_iterations (zo_out D oD) < N)%nat.
+  Proof.
+    intros Hcrit N fuel HN Hmax Hf. destruct (zerofprD_live_kkt Hcrit N fuel HN Hmax Hf) as (oD & E & [A B _ _]). exists oD. repeat split; assumption.
   Qed.
 End ZDirLiveInst.
